@@ -111,7 +111,7 @@ LINEAR_FAMILIES = {
     "AdvectionDiffusion": ("AdvectionDiffusion", (1, 2, 3), {}, dict(velocity=_pm(0.1, 2.0), diffusivity=_f(0.005, 0.5))),
     "Dispersion": ("Dispersion", (1, 2, 3), {}, dict(dispersivity=_pm(0.01, 0.5), advect_on_diffusion=st.booleans())),
     "HyperDiffusion": ("HyperDiffusion", (1, 2, 3), {}, dict(hyper_diffusivity=_f(1e-5, 1e-2), diffuse_on_diffuse=st.booleans())),
-    "Wave": ("Wave", (1, 2, 3), {}, dict(speed_of_sound=_f(0.2, 3.0))),
+    "Wave": ("Wave", (1, 2, 3), {}, dict(speed_of_sound=st.one_of(_f(0.2, 3.0), _f(0.2, 3.0), _pm(0.2, 3.0), st.just(0.0)))),
     "GenLin": ("GeneralLinearStepper", (1, 2, 3), {}, dict(linear_coefficients=_lin_coefs())),
     "NormLin": ("NormalizedLinearStepper", (1, 2, 3), {}, dict(normalized_linear_coefficients=_lin_coefs().map(lambda a: [x * 0.1 for x in a]))),
     "DiffLin": ("DifficultyLinearStepper", (1, 2, 3), {}, dict(linear_difficulties=_lin_coefs().map(lambda a: [x * 2.0 for x in a]))),
